@@ -62,6 +62,11 @@ func (h *half) signal() {
 	}
 }
 
+// Environment answers for every simulated stream of the current execution (the workers run one
+// execution at a time): simFrag > 0 = every Read returns at most that many bytes; simShortWrite > 0 =
+// every Write accepts at most that many bytes and returns (n < len, nil).
+var simFrag, simShortWrite int
+
 // simConn is one end of a buffered duplex stream (TCP-like: writes never block
 // on the reader).
 type simConn struct {
@@ -95,6 +100,9 @@ func (c *simConn) Read(p []byte) (int, error) {
 		}
 		c.r.mu.Lock()
 		if len(c.r.buf) > 0 {
+			if simFrag > 0 && len(p) > simFrag {
+				p = p[:simFrag] // the network hands the bytes over in small fragments
+			}
 			n := copy(p, c.r.buf)
 			c.r.buf = c.r.buf[n:]
 			c.r.mu.Unlock()
@@ -139,6 +147,10 @@ func (c *simConn) Write(p []byte) (int, error) {
 	}
 	if !dl.IsZero() && time.Until(dl) <= 0 {
 		return 0, errTimeout
+	}
+	if simShortWrite > 0 && len(p) > simShortWrite {
+		// a conn that takes only part of the buffer and reports no error (some custom transports do)
+		p = p[:simShortWrite]
 	}
 	if ow != nil {
 		ow(p)
